@@ -82,7 +82,36 @@ package archiver
 // startWARCWriter: both WARC-writing clients are built with the discard hook chain.
 
 //@ func startWARCWriter
-//@   property C02
+//@   property C02,C03
+//@   requires [fresh-archiver] globalArchiver != nil && config.config != nil && globalArchiver.Client == nil && globalArchiver.ClientWithProxy == nil // Start builds the archiver struct just before
+//@   ensures [as-started] @C03 clientsAsStarted() // C03: under any supported configuration (proxy or direct): which clients exist after start-up
 //@   attr assert-all NewWARCWritingHTTPClient
 //@   assert Build(*): [default-chain] @C02 arg0 != nil && len(arg0.hooks) == 2 && arg0.hooks[0] == cloudflare.ChallengePageHook && arg0.hooks[1] == warcdiscardstatus.WARCDiscardStatusHook // C02: discard hook chain built from cloudflare + warc-discard-status hooks
 //@   assert NewWARCWritingHTTPClient(*): [discard-hook] @C02 arg0.DiscardHook != nil // C02: discard hook chain built from cloudflare + warc-discard-status hooks (every WARC-writing client is created with it)
+
+// ---------------------------------------------------------------------------------------
+// Stop (C03): the stop path of the archiver does not crash under any client configuration
+// startWARCWriter leaves behind (proxy or direct), and every WARC client that exists is closed
+// exactly once (Close finalises the client's WARC files).
+
+//@ pred clientOK(c *warc.CustomHTTPClient) = c != nil && c.WaitGroup != nil
+//@ pred clientsAsStarted() = globalArchiver != nil && config.config != nil && (globalArchiver.Client == nil || clientOK(globalArchiver.Client)) && (globalArchiver.ClientWithProxy == nil || clientOK(globalArchiver.ClientWithProxy)) && (config.config.Proxy == "" ==> globalArchiver.Client != nil && globalArchiver.ClientWithProxy == nil) && (config.config.Proxy != "" ==> globalArchiver.ClientWithProxy != nil && globalArchiver.Client == nil)
+
+// cancel is the CancelFunc of the archiver's context (context.WithCancel in Start): it touches
+// nothing of the crawler's state.
+//@ func (field)archiver.cancel
+//@   trusted
+//@   modifies nothing
+
+//@ func Stop
+//@   property C03
+//@   replay c03_archiverStop:safe:nil
+//@   checks nil
+//@   requires [as-started] globalArchiver != nil ==> (clientsAsStarted() && globalArchiver.cancel != nil) // what Start leaves behind: startWARCWriter's postcondition [as-started]; cancel comes from context.WithCancel
+//@   local closedDirect int = 0
+//@   local closedProxy int = 0
+//@   attr hooked Close
+//@   after Close(Client)#1: closedDirect = closedDirect + ite(arg0 == globalArchiver.Client, 1, 0); closedProxy = closedProxy + ite(arg0 == globalArchiver.ClientWithProxy, 1, 0)
+//@   after Close(ClientWithProxy)#1: closedDirect = closedDirect + ite(arg0 == globalArchiver.Client, 1, 0); closedProxy = closedProxy + ite(arg0 == globalArchiver.ClientWithProxy, 1, 0)
+//@   after Close(globalBucketManager)#1: closedDirect = closedDirect
+//@   ensures [clients-closed] @C03 globalArchiver != nil ==> (globalArchiver.Client != nil ==> closedDirect == 1) && (globalArchiver.ClientWithProxy != nil ==> closedProxy == 1) && globalArchiver.Client == old(globalArchiver.Client) && globalArchiver.ClientWithProxy == old(globalArchiver.ClientWithProxy) // C03: afterwards every WARC file has been closed and renamed to its final name (Zeno side: every WARC client that exists is closed, exactly once)
